@@ -3,7 +3,6 @@
   (helper lemmas for Props/C20Args.lean).
 -/
 import MofunModel.Model.CliArgs
-import MofunModel.Proofs.LmpLemmas
 import MofunModel.Proofs.CifLemmas
 
 namespace Mofun.Cli
@@ -11,20 +10,124 @@ open Mofun
 
 /-! ### numbers as text -/
 
-theorem convInt_showNat (n : Nat) : convInt (Lmp.showNat n) = some (n : Int) := Lmp.readInt_showNat n
+theorem toDigits_all_digit (n : Nat) : (Nat.toDigits 10 n).all Char.isDigit = true := by
+  rw [List.all_eq_true]
+  intro c hc
+  exact Nat.isDigit_of_mem_toDigits (by decide) (by decide) hc
+
+theorem toDigits_ne_nil' (n : Nat) : (Nat.toDigits 10 n).isEmpty = false := by
+  cases h : Nat.toDigits 10 n with
+  | nil => exact absurd h Nat.toDigits_ne_nil
+  | cons _ _ => rfl
+
+theorem readDigits_toDigits (n : Nat) : Lmp.readDigits (Nat.toDigits 10 n) = some n := by
+  unfold Lmp.readDigits
+  simp [toDigits_ne_nil', toDigits_all_digit]
+
+theorem toDigits_head (n : Nat) : ∃ c t, Nat.toDigits 10 n = c :: t ∧ c.isDigit = true := by
+  cases h : Nat.toDigits 10 n with
+  | nil => exact absurd h Nat.toDigits_ne_nil
+  | cons c t =>
+    refine ⟨c, t, rfl, ?_⟩
+    have := toDigits_all_digit n
+    rw [h] at this
+    simp at this
+    exact this.1
+
+theorem signed_digit (rd : List Char → Option Nat) (c : Char) (t : List Char) (hc : c.isDigit = true) :
+    Lmp.signed rd (c :: t) = (rd (c :: t)).map (fun (n : Nat) => Int.ofNat n) := by
+  have h1 : c ≠ '-' := by intro h; subst h; exact absurd hc (by decide)
+  have h2 : c ≠ '+' := by intro h; subst h; exact absurd hc (by decide)
+  unfold Lmp.signed
+  split
+  · rename_i heq; cases heq; exact absurd rfl h1
+  · rename_i heq; cases heq; exact absurd rfl h2
+  · rfl
+
+/-- a text made of digits, signs, `e` and `.` only: nothing to strip, no underscore to drop -/
+def Plain (l : List Char) : Prop := ∀ c ∈ l, Lmp.isWs c = false ∧ c ≠ '_'
+
+theorem stripRight_plain (l : List Char) (h : ∀ c ∈ l, Lmp.isWs c = false) : Lmp.stripRight l = l := by
+  induction l with
+  | nil => rfl
+  | cons c cs ih =>
+    have hc := h c (List.mem_cons_self ..)
+    have := ih (fun x hx => h x (List.mem_cons_of_mem _ hx))
+    simp only [Lmp.stripRight, this]
+    cases cs with
+    | nil => simp [hc]
+    | cons _ _ => rfl
+
+theorem dropUnderscores_plain (l : List Char) (h : ∀ c ∈ l, c ≠ '_') (b : Bool) : dropUnderscores b l = some l := by
+  induction l generalizing b with
+  | nil => rfl
+  | cons c cs ih =>
+    have hc := h c (List.mem_cons_self ..)
+    simp only [dropUnderscores, hc, if_false]
+    rw [ih (fun x hx => h x (List.mem_cons_of_mem _ hx))]
+    rfl
+
+theorem normNum_plain (l : List Char) (h : Plain l) : normNum l = some l := by
+  unfold normNum Lmp.strip
+  have hws : ∀ c ∈ l, Lmp.isWs c = false := fun c hc => (h c hc).1
+  have hd : l.dropWhile Lmp.isWs = l := by
+    cases l with
+    | nil => rfl
+    | cons c cs => simp [List.dropWhile_cons, hws c (List.mem_cons_self ..)]
+  rw [hd, stripRight_plain l hws]
+  exact dropUnderscores_plain l (fun c hc => (h c hc).2) false
+
+theorem isWs_of_digit (c : Char) (hd : c.isDigit = true) : Lmp.isWs c = false := by
+  simp only [Char.isDigit, Bool.and_eq_true, decide_eq_true_eq] at hd
+  have h1 : 48 ≤ c.val.toNat := by have := UInt32.le_iff_toNat_le.mp hd.1; simpa using this
+  cases hw : Lmp.isWs c with
+  | false => rfl
+  | true =>
+    exfalso
+    simp only [Lmp.isWs, Bool.or_eq_true, Bool.and_eq_true, beq_iff_eq, decide_eq_true_eq] at hw
+    rcases hw with (hw | hw) | hw
+    · rw [hw] at h1; revert h1; decide
+    · have := UInt32.le_iff_toNat_le.mp hw.2; have e : c.val.toNat = c.toNat := rfl; simp at this; omega
+    · have := UInt32.le_iff_toNat_le.mp hw.2; have e : c.val.toNat = c.toNat := rfl; simp at this; omega
+
+theorem plain_digits (n : Nat) : Plain (Nat.toDigits 10 n) := by
+  intro c hc
+  have hd : c.isDigit = true := Nat.isDigit_of_mem_toDigits (by decide) (by decide) hc
+  exact ⟨isWs_of_digit c hd, by intro he; subst he; exact absurd hd (by decide)⟩
+
+theorem plain_cons (c : Char) (l : List Char) (hc : Lmp.isWs c = false ∧ c ≠ '_') (h : Plain l) : Plain (c :: l) := by
+  intro x hx
+  rcases List.mem_cons.mp hx with rfl | hx
+  · exact hc
+  · exact h x hx
+
+theorem plain_append (a b : List Char) (ha : Plain a) (hb : Plain b) : Plain (a ++ b) := by
+  intro x hx
+  rcases List.mem_append.mp hx with hx | hx
+  · exact ha x hx
+  · exact hb x hx
+
+theorem convInt_showNat (n : Nat) : convInt (Lmp.showNat n) = some (n : Int) := by
+  unfold convInt Lmp.showNat
+  rw [String.toList_ofList, normNum_plain _ (plain_digits n)]
+  obtain ⟨c, t, h, hc⟩ := toDigits_head n
+  simp only [Option.bind_some]
+  have := signed_digit Lmp.readDigits c t hc
+  rw [← h] at this
+  rw [this, readDigits_toDigits]
+  rfl
 
 theorem convInt_showInt (i : Int) : convInt (Lmp.showInt i) = some i := by
-  unfold convInt Lmp.showInt
   by_cases h : i < 0
-  · simp only [h, if_true]
-    unfold Lmp.readInt
-    rw [String.toList_ofList, Lmp.signed_minus, Lmp.readDigits_toDigits]
-    simp only [Option.map_some]
+  · unfold convInt Lmp.showInt
+    simp only [h, if_true]
+    rw [String.toList_ofList, normNum_plain _ (plain_cons '-' _ (by decide) (plain_digits _))]
+    simp only [Option.bind_some, Lmp.signed, readDigits_toDigits, Option.map_some]
     congr 1
     show -((i.natAbs : Nat) : Int) = i
     omega
-  · simp only [h, if_false]
-    rw [Lmp.readInt_showNat]
+  · have : Lmp.showInt i = Lmp.showNat i.toNat := by unfold Lmp.showInt; simp [h]
+    rw [this, convInt_showNat]
     congr 1
     omega
 
@@ -56,7 +159,7 @@ theorem parseFloatL_exp (n k : Nat) (neg : Bool) :
     cases neg with
     | true => rfl
     | false =>
-      obtain ⟨c, t, h, hc⟩ := Lmp.toDigits_head n
+      obtain ⟨c, t, h, hc⟩ := toDigits_head n
       simp only [Bool.false_eq_true, if_false, List.nil_append, h, List.cons_append]
       exact Cif.parseSign_digit c _ hc
   have hE : Cif.isE 'e' = true := by decide
@@ -88,13 +191,19 @@ theorem parseFloatL_exp (n k : Nat) (neg : Bool) :
   cases neg <;> simp [div_eq_mul_inv]
 
 theorem convFloat_showDec (d : Dec) : convFloat (showDec d) = some d.toRat := by
-  unfold convFloat Cif.parseFloat showDec Lmp.showInt Lmp.showNat
+  unfold convFloat showDec Lmp.showInt Lmp.showNat
+  have hs : "e-".toList = ['e', '-'] := rfl
+  have hplain_e : Plain ('e' :: '-' :: Nat.toDigits 10 d.e) :=
+    plain_cons 'e' _ (by decide) (plain_cons '-' _ (by decide) (plain_digits _))
   by_cases h : d.m < 0
-  · simp only [h, if_true, String.toList_append, String.toList_ofList]
+  · simp only [h, if_true, String.toList_append, String.toList_ofList, hs]
+    have hp : Plain (('-' :: Nat.toDigits 10 d.m.natAbs) ++ ['e', '-'] ++ Nat.toDigits 10 d.e) := by
+      have := plain_append _ _ (plain_cons '-' _ (by decide) (plain_digits d.m.natAbs)) hplain_e
+      simpa using this
+    rw [normNum_plain _ hp]
+    simp only [Option.bind_some]
     have := parseFloatL_exp d.m.natAbs d.e true
     simp only [if_true, List.cons_append, List.nil_append] at this
-    have hs : "e-".toList = ['e', '-'] := rfl
-    rw [hs]
     simp only [List.cons_append, List.nil_append, List.append_assoc] at this ⊢
     rw [this]
     congr 1
@@ -105,11 +214,14 @@ theorem convFloat_showDec (d : Dec) : convFloat (showDec d) = some d.toRat := by
         _ = -((d.m.natAbs : Nat) : Rat) := by rw [Int.cast_neg, Int.cast_natCast]
     rw [this]
     ring
-  · simp only [h, if_false, String.toList_append, String.toList_ofList]
+  · simp only [h, if_false, String.toList_append, String.toList_ofList, hs]
+    have hp : Plain (Nat.toDigits 10 d.m.toNat ++ ['e', '-'] ++ Nat.toDigits 10 d.e) := by
+      have := plain_append _ _ (plain_digits d.m.toNat) hplain_e
+      simpa using this
+    rw [normNum_plain _ hp]
+    simp only [Option.bind_some]
     have := parseFloatL_exp d.m.toNat d.e false
     simp only [Bool.false_eq_true, if_false, List.nil_append] at this
-    have hs : "e-".toList = ['e', '-'] := rfl
-    rw [hs]
     simp only [List.cons_append, List.nil_append, List.append_assoc] at this ⊢
     rw [this]
     congr 1
